@@ -191,7 +191,7 @@ Definition gstep (st : hst) (o : gop) : hst * gres :=
   let x := h_arg st in let nid := h_nid st in
   match o with
   | GGet api p =>
-    match (if api then si_get x p else si_get_to x p) with
+    match (if api then si_get fixed x p else si_get_to fixed x p) with
     | Ret r e => (st, RGet e r (match r with Some g => ref_data x g | None => [] end))
     | Panic k => (st, RPanic k)
     end
@@ -206,11 +206,11 @@ Definition gstep (st : hst) (o : gop) : hst * gres :=
   | GCmp c r p =>
     match si_compare fixed x c r p with Ret v e => (st, RCmp e v) | Panic k => (st, RPanic k) end
   | GLen p =>
-    match si_length x p with Ret w e => (st, RLen e w) | Panic k => (st, RPanic k) end
+    match si_length fixed x p with Ret w e => (st, RLen e w) | Panic k => (st, RPanic k) end
   | GCap p =>
-    match si_capacity x p with Ret w e => (st, RCap e w (cap_reflen x p)) | Panic k => (st, RPanic k) end
+    match si_capacity fixed x p with Ret w e => (st, RCap e w (cap_reflen x p)) | Panic k => (st, RPanic k) end
   | GLoop want brk p =>
-    match si_loop x (mk_iter want brk) p with
+    match si_loop fixed x (mk_iter want brk) p with
     | Ret vs e => (st, RLoop e (map (fun v => (vi_key v, vi_val v, ref_data x (vi_val v))) vs))
     | Panic k => (st, RPanic k)
     end
@@ -220,22 +220,22 @@ Definition gstep (st : hst) (o : gop) : hst * gres :=
     | Panic k => (st, RPanic k)
     end
   | GCopyFrom src =>
-    match si_copy_to src x nid with
+    match si_copy_to fixed src x nid with
     | Ret (x', n') e => ({| h_arg := x'; h_nid := n' |}, RCopyIn e (shares (elems_of src) (elems_of x')))
     | Panic k => (st, RPanic k)
     end
   | GCopyOut d =>
-    match si_copy_to x (dst_of d) nid with
+    match si_copy_to fixed x (dst_of d) nid with
     | Ret (d', n') e => ({| h_arg := x; h_nid := n' |}, RCopyOut e (shares (elems_of x) (elems_of d')) d')
     | Panic k => (st, RPanic k)
     end
   | GCopy =>
-    match si_copy x nid with
+    match si_copy fixed x nid with
     | Ret (d', n') e => ({| h_arg := x; h_nid := n' |}, RCopyOut e (shares (elems_of x) (q_elems d')) (AVal d'))
     | Panic k => (st, RPanic k)
     end
   | GReset =>
-    match si_reset x with
+    match si_reset fixed x with
     | Ret x' e => ({| h_arg := x'; h_nid := nid |}, RErr e)
     | Panic k => (st, RPanic k)
     end
